@@ -7,6 +7,9 @@ CHECKS = {
  "C03": dict(engine="B", category="translation_validation", technique="SMT equivalence (z3) between the meaning of the AST produced by the real parser and the meaning of the expression tree that a Modelica-specification printer turned into the text; texts enumerated, variable values symbolic; literals compared exactly",
    text="Every expression tree of depth <=2 over all operator classes (thorough: depth 3 on representatives) is printed with minimal, full and redundant parentheses by a printer written from the Modelica grammar; the real parser parses the text; z3 proves the parsed tree and the source tree evaluate equally for all variable values. Number/Boolean/string literals and range expressions are compared with their exact values.",
    note="Text -> parse tree is executed concretely (ANTLR cannot be run symbolically), so the claim is bounded by the enumerated texts; pow/sin uninterpreted; 0/1 Booleans with and=product, or=sum.", ref="4/C03"),
+ "C05": dict(engine="A", category="model_checking", technique="CrossHair symbolic execution (z3) of repeated real tree.flatten / casadi generate calls on ONE tree with the request sequence and all library literals symbolic; every step compared (Node.to_json, symbolic leaves decided by the solver) with the same request on a fresh tree; 'Confirmed over all paths' per shard",
+   text="5 generated libraries (component of a class flattened earlier, extends with modification, type alias inside a package, connectors, redeclare, functions): for ALL request sequences of length 2 (thorough 3, each step flatten or CasADi generate) over the library's classes and all values of its 4 literals, every step equals the same request on an independently unpickled tree, or both raise. Supplementary concrete stages: ordered class pairs of the repository's test models; the real compiler CLI with every ordered pair of -m models (exit status = sum of the single-model statuses).",
+   note="Program structure is a bounded family; the supplementary stages are enumeration, stated as such in the evidence.", ref="4/C05"),
  "C09": dict(engine="B", category="translation_validation", technique="SMT (z3, linear real arithmetic): two unsat queries per program prove And(flat equations) <=> And(connection-set reference equations); connect sequences enumerated exhaustively",
    text="For every ordered sequence of connect clauses within the bound, over inside and outside connectors with potential and flow variables, z3 proves that the equations produced by the real flatten/expand_connectors have exactly the solutions of Modelica connection-set semantics (union-find oracle), for all real values of all variables.",
    note="Oracle vk/ref/connect_ref.py; components have no own equations; bounded number of connectors/clauses (stated in evidence).", ref="4/C09"),
